@@ -52,6 +52,23 @@ func Tpl(marker string) corev1.PodTemplateSpec {
 	}
 }
 
+// ExportedMeta makes the template's metadata look like it was copied from a live pod of another ExtendedDaemonSet
+// (a legal manifest: everything the controller manages must be overwritten with its own values).
+func ExportedMeta(t *corev1.PodTemplateSpec) {
+	t.Namespace = "elsewhere"
+	t.GenerateName = "other-zzzzz-"
+	if t.Labels == nil {
+		t.Labels = map[string]string{}
+	}
+	t.Labels[v1.ExtendedDaemonSetNameLabelKey] = "other"
+	t.Labels[v1.ExtendedDaemonSetReplicaSetNameLabelKey] = "other-zzzzz"
+	if t.Annotations == nil {
+		t.Annotations = map[string]string{}
+	}
+	t.Annotations[v1.MD5ExtendedDaemonSetAnnotationKey] = "0123456789abcdef0123456789abcdef"
+	t.Annotations["cluster-autoscaler.kubernetes.io/daemonset-pod"] = "false"
+}
+
 // MarkerOfTemplate reads the marker of a template.
 // Two templates that differ only in the ORDER of a container's env list are different templates
 // (expansion and duplicate resolution depend on it), so the order is part of the marker.
